@@ -28,7 +28,7 @@ for k in $(seq 1 $N); do
       cd $ROOT/$k/repo && git checkout -q -- . && git clean -fdq
       if ! git apply $V/$patch 2>/dev/null; then echo "$name $id -> NOAPPLY" >> $ROOT/result.txt; continue; fi
       cd $ROOT/$k/verif
-      out=$(VERIF_REPO=$ROOT/$k/repo VERIF_NO_EVIDENCE=1 ./check $id --tier quick 2>/dev/null | grep -E "^(VIOLATION|OK|INCONCLUSIVE|KNOWN)" | head -1 | cut -c1-90)
+      out=$(VERIF_REPO=$ROOT/$k/repo VERIF_NO_EVIDENCE=1 ./check $id --tier quick 2>/dev/null | grep -E "^(VIOLATION|OK|INCONCLUSIVE)" | head -1 | cut -c1-90)
       echo "$name $id -> $out" >> $ROOT/result.txt
     done < $list
   ) &
